@@ -2,7 +2,7 @@
 
 Leg M   : TLC enumerates a union of input universes of specs/Team (who defines a variable x which cars list which config
           bases x template trees / archive content x where the data paths are relative to the installation) and checks that the operational transcription of team.load_car /
-          ElasticsearchInstaller.variables / _apply_config / cleanup satisfies the declarative clauses of C13; twelve seeded
+          ElasticsearchInstaller.variables / _apply_config / cleanup satisfies the declarative clauses of C13; thirteen seeded
           faults of the transcription must each violate them (self-test of the formulas).
 Leg S2C : TLC states (inputs) become REAL team directories (cars/v1/*.ini, <base>/config.ini, <base>/templates/** with
           Jinja templates and binary blobs) and a stub distribution tar.gz; the real team.load_car, ElasticsearchInstaller,
@@ -28,7 +28,7 @@ from ..tlaparse import parse_state, to_json
 
 S, L = teamfs.S, teamfs.L
 
-SELFTEST_ALL = ["first_base_wins", "params_first", "nodedup", "earlier_car_wins", "base_over_car", "internal_first", "overwrite", "ignore_preserve", "keep_data", "prefix_skip", "leak_defaults", "docker_car_over_defaults"]
+SELFTEST_ALL = ["first_base_wins", "params_first", "nodedup", "earlier_car_wins", "base_over_car", "internal_first", "overwrite", "ignore_preserve", "keep_data", "prefix_skip", "leak_defaults", "docker_car_over_defaults", "skip_blank"]
 
 
 # ---------------------------------------------------------------------------------------------------
@@ -168,7 +168,12 @@ def random_inp(rnd):
         tree = []
         for p in rnd.sample(PATHS, rnd.randint(0, 5)):
             k = kind_of(p)
-            tree.append({"path": list(p), "kind": k, "cid": rnd.choice(tcids if k == "text" else bcids)})
+            # every 6th text template renders to nothing for every variable set (teamfs.BLANK: one conditional block, a loop over
+            # an empty list, an empty file) - alone at its path or appended to / before what other sources provide
+            cid = rnd.choice(tcids if k == "text" else bcids)
+            if k == "text" and rnd.random() < 1 / 6:
+                cid = rnd.choice(sorted(teamfs.BLANK))
+            tree.append({"path": list(p), "kind": k, "cid": cid})
         if rnd.random() < 0.3:
             # the same file NAME in two (three) directories of this config base, with different template text
             name = rnd.choice(["log4j2.properties", "jvm.options"])
@@ -388,13 +393,22 @@ def run(ctx, out):
                 if f["kind"] == "text":
                     by.setdefault(f["path"][-1], set()).add(f["cid"])
             samename = samename or any(len(v) > 1 for v in by.values())
+        # a path at which every provider is a template that renders to nothing (and the archive ships nothing that stays there)
+        cids_at = {}
+        for b in ment:
+            for f in inp["bases"][b]["tree"]:
+                if f["kind"] == "text":
+                    cids_at.setdefault(tuple(f["path"]), []).append(f["cid"])
+        kept = {tuple(f["path"]) for f in inp["shipped"] if f["path"][0] != "config"}
+        blank_only = any(all(c in teamfs.BLANK for c in cs) and p not in kept for p, cs in cids_at.items())
+        blank_mixed = any(any(c in teamfs.BLANK for c in cs) and not all(c in teamfs.BLANK for c in cs) for cs in cids_at.values())
         dp = "data_paths" in inp["params"] or any("data_paths" in c["vars"] for c in inp["cars"]) or any("data_paths" in inp["bases"][b]["vars"] for b in ment)
         win = None  # the data paths that win (params over later car over earlier car; those of config bases are not needed here)
         for c in inp["cars"]:
             win = c["vars"].get("data_paths", win)
         win = inp["params"].get("data_paths", win)
         sib = bool(ment) and not inp["preserve"] and win is not None and any(x.startswith("$ES") and not x.startswith("$ES/") for x in win["v"])
-        return {"nobase": not ment, "dup": n_ment != len(ment), "app": any(v > 1 for v in prov.values()), "ext": bool(ment) and dp, "pres": bool(ment) and inp["preserve"], "sib": sib, "samename": samename}
+        return {"nobase": not ment, "dup": n_ment != len(ment), "app": any(v > 1 for v in prov.values()), "ext": bool(ment) and dp, "pres": bool(ment) and inp["preserve"], "sib": sib, "samename": samename, "blank_only": blank_only, "blank_mixed": blank_mixed}
 
     fs = [feats(it["inp"]) for it in items]
     for it, f in zip(items, fs):
@@ -409,8 +423,9 @@ def run(ctx, out):
         out.add_case(_norm(it), nontrivial=not f["nobase"] and any(bd["tree"] for bd in it["inp"]["bases"].values()))
     n_err, n_dup, n_app, n_ext, n_pres, n_sib, n_multi, n_mdd = (sum(1 for f in fs if f[k2]) for k2 in ("nobase", "dup", "app", "ext", "pres", "sib", "multi", "multi_default_dp"))
     n_dcol, n_dplain, n_same = (sum(1 for f in fs if f[k2]) for k2 in ("docker_collision", "docker_plain", "samename"))
-    out.extra["executions"] = {"total": len(items), "no_config_base": n_err, "config_base_mentioned_twice": n_dup, "file_appended_by_several_sources": n_app, "user_data_paths": n_ext, "data_path_sibling_named_after_es_home_wiped": n_sib, "preserve_install": n_pres, "several_nodes_from_one_car": n_multi, "several_nodes_default_data_paths": n_mdd, "docker_car_collides_with_node_variable": n_dcol, "docker_no_collision": n_dplain, "same_file_name_in_two_directories_of_one_base": n_same}
-    for name, cnt in (("appended files", n_app), ("the same template file name in two directories of one config base", n_same), ("Docker provisioning of a car that defines a node variable name", n_dcol), ("Docker provisioning without name collision", n_dplain), ("several nodes provisioned from one car", n_multi), ("several nodes from one car that defines no data_paths", n_mdd), ("data path that is a name-prefix sibling of the ES home (cleanup without preserve)", n_sib), ("duplicate base mentions", n_dup), ("external data paths", n_ext), ("preserve", n_pres), ("no-base errors", n_err)):
+    n_blank, n_bmix = (sum(1 for f in fs if f[k2]) for k2 in ("blank_only", "blank_mixed"))
+    out.extra["executions"] = {"total": len(items), "file_whose_only_templates_render_to_nothing": n_blank, "empty_rendering_appended_to_or_before_other_text": n_bmix, "no_config_base": n_err, "config_base_mentioned_twice": n_dup, "file_appended_by_several_sources": n_app, "user_data_paths": n_ext, "data_path_sibling_named_after_es_home_wiped": n_sib, "preserve_install": n_pres, "several_nodes_from_one_car": n_multi, "several_nodes_default_data_paths": n_mdd, "docker_car_collides_with_node_variable": n_dcol, "docker_no_collision": n_dplain, "same_file_name_in_two_directories_of_one_base": n_same}
+    for name, cnt in (("a file whose only templates render to nothing", n_blank), ("an empty rendering appended to / before other text", n_bmix), ("appended files", n_app), ("the same template file name in two directories of one config base", n_same), ("Docker provisioning of a car that defines a node variable name", n_dcol), ("Docker provisioning without name collision", n_dplain), ("several nodes provisioned from one car", n_multi), ("several nodes from one car that defines no data_paths", n_mdd), ("data path that is a name-prefix sibling of the ES home (cleanup without preserve)", n_sib), ("duplicate base mentions", n_dup), ("external data paths", n_ext), ("preserve", n_pres), ("no-base errors", n_err)):
         if cnt == 0:
             out.vacuous.append("no executed case with " + name)
     mid = items[len(items) // 2]
